@@ -221,8 +221,38 @@ def _implicit_raise(fv, node):
     return None
 
 
+def _peer_text(tree, ob):
+    ''' The node ID of the peer arrives as octets; turning it into text (str() of the field goes through i2h = decode)
+    fails for octets that are not UTF-8.  On the receive path that must be a negotiation failure, not an exception. '''
+    from ..cfg import handler_names
+    fm = FuncView(tree, SESS, 'Messenger.merge_session_params')
+    n = 0
+    for c in calls_in(fm.func):
+        if pm('str(self._sessinit_peer.nodeid_data)', c) is None:
+            continue
+        n += 1
+        ok = False
+        prev = c
+        cur = getattr(c, '_parent', None)
+        while cur is not None and cur is not fm.func:
+            if isinstance(cur, ast.Try) and any(prev is st or prev in ast.walk(st) for st in cur.body):
+                for h in cur.handlers:
+                    if any((nm or 'BaseException').split('.')[-1] in ('UnicodeError', 'UnicodeDecodeError', 'ValueError', 'Exception', 'BaseException') for nm in handler_names(h)) and \
+                            any(isinstance(r, ast.Raise) and r.exc is not None and ('TerminateError' in src(r.exc) or 'RejectError' in src(r.exc)) for r in walk_local(h)):
+                        ok = True
+            prev = cur
+            cur = getattr(cur, '_parent', None)
+        if ok:
+            ob.site(SESS, c, 'a peer node ID that is not UTF-8 is a negotiation failure')
+        else:
+            ob.violate(SESS, fm.qual, src(c) + ' unguarded', 'a SESS_INIT whose node ID is not valid UTF-8 raises UnicodeDecodeError out of the receive callback: the session stays half negotiated and the '
+                       'connection is never read again nor closed', c)
+    ob.require(n >= 1, 'conversion of the peer node id not found')
+
+
 def c17a(tree, ob):
     _stop_after_close(tree, ob)
+    _peer_text(tree, ob)
     roots = _roots(tree)
     ob.require(len(roots) >= 6, 'expected at least six event-loop callbacks in session.py, found {}'.format(sorted(roots)))
     esc = Escapes(tree)
